@@ -301,6 +301,16 @@ class SymInt(_SymNum):
     def __float__(self):
         return float(_CUR.value(self))
 
+    def __round__(self, ndigits=None):
+        if ndigits is not None and not (isinstance(ndigits, int) and ndigits >= 0):
+            raise TypeError("round(SymInt, negative ndigits) is not modelled")
+        return self
+
+    def __floor__(self):
+        return self
+
+    __ceil__ = __trunc__ = __floor__
+
     def __floordiv__(self, o):
         z = self._co(o)
         if z is None or z.sort() != z3.IntSort():
@@ -320,12 +330,41 @@ class SymInt(_SymNum):
 
 
 class SymReal(_SymNum):
+    """Exact real (rational) arithmetic standing in for float.  floor/ceil/trunc/int/round are the exact operations
+    on the real value (round = half-to-even, as Python's round(float)); they agree with IEEE doubles wherever the
+    double is the exact quotient or far from a .5 boundary - the replay on plain Python values settles the rest."""
     __slots__ = ()
     _real = True
 
     def __float__(self):
         v = _CUR.value(self)
         return float(v)
+
+    def __floor__(self):
+        return SymInt(z3.simplify(z3.ToInt(self.e)))
+
+    def __ceil__(self):
+        return SymInt(z3.simplify(-z3.ToInt(-self.e)))
+
+    def __trunc__(self):
+        return SymInt(z3.simplify(z3.If(self.e >= 0, z3.ToInt(self.e), -z3.ToInt(-self.e))))
+
+    __int__ = __trunc__
+
+    def __round__(self, ndigits=None):
+        if ndigits is not None:
+            raise TypeError("round(SymReal, ndigits) is not modelled")
+        fl = z3.ToInt(self.e)
+        frac = self.e - z3.ToReal(fl)
+        half = z3.RealVal(1) / 2
+        return SymInt(z3.simplify(z3.If(frac < half, fl, z3.If(frac > half, fl + 1, z3.If(fl % 2 == 0, fl, fl + 1)))))
+
+    def __floordiv__(self, o):
+        z = self._co(o)
+        if z is None:
+            return NotImplemented
+        b = z3.ToReal(z) if z.sort() == z3.IntSort() else z
+        return SymReal(z3.ToReal(z3.ToInt(self.e / b)))
 
 
 def _model_value(m, e):
